@@ -107,7 +107,7 @@ def other_cases(v, r, tier, prev_yaml):
                           "src": f"local v = {vs}; [std.parseJson(std.manifestJsonMinified(v)) == v, "
                                  f"std.parseJson(std.manifestJsonEx(v, \"\\t\")) == v, "
                                  f"std.parseJson(std.manifestJsonEx(v, \" \", \"\\n\", \" : \")) == v]"},
-                 "exp": "[true, true, true]"})
+                 "exp": "[true, true, true]", "v": v})
     jobs.append({"kind": "python", "fn": "std.manifestPython", "pv": pv,
                  "case": {"k": "eval", "manifest": "string", "src": f"std.manifestPython({vs})"}})
     if v["t"] == "obj":
@@ -147,6 +147,12 @@ def other_cases(v, r, tier, prev_yaml):
             jobs.append({"kind": "yaml", "fn": "std.manifestYamlDoc", "pv": pv, "settings": [iaio, qk],
                          "plain_keys": not qk, "v": v,
                          "case": {"k": "eval", "manifest": "string", "src": src}})
+        # the implementation's own YAML reader must read its own writer's documents back
+        iaio, qk = r.random() < 0.5, r.random() < 0.5
+        jobs.append({"kind": "selfrt", "fn": "std.parseYaml",
+                     "case": {"k": "eval", "manifest": "single",
+                              "src": f"local v = {vs}; std.parseYaml(std.manifestYamlDoc(v, {jb(iaio)}, {jb(qk)})) == v"},
+                     "exp": "true", "v": v})
         iaio, cde, qk = r.random() < 0.5, r.random() < 0.5, r.random() < 0.5
         docs = [v] if prev_yaml is None or r.random() < 0.3 else [prev_yaml, v]
         if r.random() < 0.05:
@@ -374,7 +380,7 @@ def judge_other(chk, job, res):
     if kind == "selfrt":
         if doc != job["exp"]:
             chk.disagree({"kind": "json", "fn": fn, "class": "self-roundtrip", "ctl": value_controls(job["v"])},
-                         f"`{case['src'][:300]}` gives {doc}: std.parseJson does not read the emitted JSON back "
+                         f"`{case['src'][:300]}` gives {doc}: {fn} does not read the emitted document back "
                          f"as the same value", dict(payload, expected=job["exp"]))
             return "self-roundtrip"
         return "agree"
